@@ -58,7 +58,10 @@ pub fn gen_case(rng: &mut Rng) -> String {
         7 => rng.range(0, 86_400 * NS) as i128,
         8 => rng.range(0, 13 * 86_400) as i128 * NS as i128 + rng.range(0, NS - 1) as i128,
         9 => rng.range(0, 4_000_000_000) as i128 * NS as i128 + rng.range(0, NS - 1) as i128,
-        10 => -(rng.range(0, 10 * NS) as i128),
+        10 => if rng.chance(1, 2) { -(rng.range(0, 10 * NS) as i128) } else {
+            // lags whose low 32 bits look like a value inside the blur window
+            -((rng.range(1, 3) as i128) << 32) - rng.pick(&[0i64, 1, 500, 999, 1000, 1001]) as i128
+        },
         11 => NS as i128 * rng.range(0, 100_000) as i128, // whole seconds
         12 => { // product drift*d/1e9 close to an integer
             let k = rng.range(1, 1_000_000) as i128;
@@ -100,7 +103,7 @@ pub fn grid() -> Vec<String> {
             let (va_sec, va_ns) = if vo_n < 0 { (s + vo_s, 0) } else { add_ns(s, n, vo_s as i128 * NS as i128 + vo_n as i128) };
             let va_off = (va_sec as i128 - s as i128) * NS as i128 + (va_ns as i128 - n as i128);
             for status in 0..3 {
-                for &base in &[-1000i128, 0, 5 * NS as i128, va_off] {
+                for &base in &[-1000i128, 0, 5 * NS as i128, va_off, -(1i128 << 32) - 500, -(2i128 << 32) - 1] {
                     for delta in -1i128..=1 {
                         let (ms, mn) = add_ns(s, n, base + delta);
                         for &drift in &drifts {
